@@ -11,7 +11,7 @@ Lemma search_shape_P : forall p getv s q k ef l (P : Z -> Prop),
   search p getv s q k ef = SOk l -> 0 <= k ->
   (l = [] /\ entry s = None) \/
   exists out : list cand,
-    l = map (fun c => (row_of s (cid c), cd c)) out /\
+    l = flat_map (result_of s) out /\
     Z.of_nat (length out) <= k /\ asc out /\ NoDup (map cid out) /\
     (forall x, In x out -> cd x = cd_search s getv q (cid x)) /\
     (forall x, In x out -> P (cid x)) /\
@@ -37,6 +37,15 @@ Proof.
     + exact Pcur.
   - intros Hef Hkp Hnil. rewrite Hnil in F5. cbn [length] in F5.
     specialize (B4 Hef). destruct rs; [congruence|]. cbn [length] in F5. lia.
+Qed.
+
+(* when every candidate is readable the final filter drops nothing *)
+Lemma result_of_all : forall s out, (forall x, In x out -> exists nd, read_node s (cid x) = Some nd) ->
+  flat_map (result_of s) out = map (fun c => (row_of s (cid c), cd c)) out.
+Proof.
+  intros s out. induction out as [|x t IH]; intros H; cbn [flat_map map]; auto.
+  rewrite IH by (intros y Hy; apply H; right; auto).
+  destruct (H x (or_introl eq_refl)) as [nd Hr]. unfold result_of, row_of. rewrite Hr. reflexivity.
 Qed.
 
 Lemma NoDup_map_nth : forall (A B : Type) (f : A -> B) (l : list A) i j a b,
@@ -100,6 +109,7 @@ Proof.
         { apply read_node_Some in Hr. destruct Hr as (_ & Hn & _). apply in_map. eapply nth_error_In; eauto. }
         apply (i_tbl _ I) in Hin. destruct (a_get (n_row nd) (tbl w)) as [v|] eqn:Ev; [|congruence].
         exists nd, v. split; auto. split; auto. rewrite (H4 x Hx). unfold cd_search, getv_of. rewrite Hr, Ev. auto. }
+      rewrite (result_of_all (ix w) out) by (intros x Hx; destruct (Hnode x Hx) as (nd & v & Hr & _); eauto).
       rewrite map_length. split; [exact H1|]. split; [|split; [|split]].
       * rewrite map_map. cbn [fst]. apply rows_nodup; auto.
         intros x Hx. destruct (Hnode x Hx) as (nd & v & Hr & _). eauto.
@@ -135,7 +145,7 @@ Lemma search_sound_l : forall p ops q k ef,
 Proof.
   intros p ops q k ef Hwf Hc Hk.
   assert (Hcl : any_inactive (ix (run0 p ops)) = false).
-  { unfold class_of in Hc. destruct (HALF_PAGE <? page_use _); [discriminate|]. destruct (entry_dead _); [discriminate|]. destruct (any_inactive _); [discriminate | auto]. }
+  { unfold class_of in Hc. destruct (entry_dead _); [discriminate|]. destruct (any_inactive _); [discriminate | auto]. }
   pose proof (search_sound_inv0 p (run0 p ops) q k ef (inv0_reached p ops Hwf Hcl) Hk) as H.
   destruct (search _ _ _ _ _ _); auto. destruct H as (A & B & C & D & _). auto.
 Qed.
@@ -147,7 +157,7 @@ Lemma search_nonempty_l : forall p ops q k ef l,
 Proof.
   intros p ops q k ef l Hwf Hc Ht Hk Hef Hs.
   assert (Hcl : any_inactive (ix (run0 p ops)) = false).
-  { unfold class_of in Hc. destruct (HALF_PAGE <? page_use _); [discriminate|]. destruct (entry_dead _); [discriminate|]. destruct (any_inactive _); [discriminate | auto]. }
+  { unfold class_of in Hc. destruct (entry_dead _); [discriminate|]. destruct (any_inactive _); [discriminate | auto]. }
   pose proof (search_sound_inv0 p (run0 p ops) q k ef (inv0_reached p ops Hwf Hcl) ltac:(lia)) as H.
   rewrite Hs in H. destruct H as (_ & _ & _ & _ & E). auto.
 Qed.
@@ -160,7 +170,7 @@ Lemma insert_ok_l : forall p ops row v lvl blind,
 Proof.
   intros p ops row v lvl blind Hwf Hc Hd.
   assert (Hcl : any_inactive (ix (run0 p ops)) = false).
-  { unfold class_of in Hc. destruct (HALF_PAGE <? page_use _); [discriminate|]. destruct (entry_dead _); [discriminate|]. destruct (any_inactive _); [discriminate | auto]. }
+  { unfold class_of in Hc. destruct (entry_dead _); [discriminate|]. destruct (any_inactive _); [discriminate | auto]. }
   assert (Hsplit : forall ops1 w o, wf_ops p w (ops1 ++ [o]) = true ->
             wf_ops p w ops1 = true /\ op_wf (fst (run p w ops1)) o = true).
   { induction ops1 as [|o1 t IH]; intros w o H; cbn [app wf_ops run] in *.
@@ -215,19 +225,41 @@ Qed.
 Definition wit_p : params := Pm 2 2 4.
 Definition wit1 : list op := [Ins 1 [0;0] 0 false; Ins 2 [3;4] 0 false; Del 2].
 Definition wit2 : list op := [Ins 1 [0;0] 0 false; Ins 2 [3;4] 0 false; Del 1; Vac 10; Reopen].
+Definition wit3 : list op := [Ins 1 [0;0] 0 false; Ins 2 [3;4] 0 false; Del 2; Ins 3 [1;1] 0 false].
 
-(* class 1: a deleted node is reported as row id 0 (not live) with distance +inf *)
-Lemma search_live_refuted_l :
-  wf_ops wit_p w0 wit1 = true /\ class_of (ix (run0 wit_p wit1)) = 1 /\
-  search wit_p (getv_of (tbl (run0 wit_p wit1))) (ix (run0 wit_p wit1)) [0;0] 2 4 = SOk [(1, Fin 0); (0, Inf)] /\
-  a_get 0 (tbl (run0 wit_p wit1)) = None.
+(* HISTORICAL (F-C25-1 as first recorded, repaired by /repo 68d5b43): on this history search used to
+   report the deleted node as (row 0, +inf); it is dropped now and the result is sound *)
+Lemma phantom_result_fixed_l :
+  wf_ops wit_p w0 wit1 = true /\ class_of (ix (run0 wit_p wit1)) = 1 /\ clean wit_p w0 wit1 = true /\
+  search wit_p (getv_of (tbl (run0 wit_p wit1))) (ix (run0 wit_p wit1)) [0;0] 2 4 = SOk [(1, Fin 0)].
 Proof. vm_compute. repeat split. Qed.
 
-(* class 2: the entry point is deleted: nothing live is returned although row 2 is live -- also after
+(* class 1, what survives of F-C25-1: the deleted node is still linked and unreadable, so the next insert
+   selects it, fails half way (Err) and leaves its own node linked and readable: search then reports
+   row 3, which the caller was told is not in the index, with distance +inf *)
+Lemma search_live_refuted_l :
+  wf_ops wit_p w0 wit3 = true /\ class_of (ix (run0 wit_p wit3)) = 1 /\ clean wit_p w0 wit3 = false /\
+  snd (step wit_p (run0 wit_p wit1) (Ins 3 [1;1] 0 false)) = OIns false /\
+  search wit_p (getv_of (tbl (run0 wit_p wit3))) (ix (run0 wit_p wit3)) [0;0] 5 8 = SOk [(1, Fin 0); (3, Inf)] /\
+  a_get 3 (tbl (run0 wit_p wit3)) = None.
+Proof. vm_compute. repeat split. Qed.
+
+(* class 2: the entry point is deleted: nothing is returned although row 2 is live -- also after
    vacuum and reopen -- and the next insert fails *)
 Lemma search_nonempty_refuted_l :
-  wf_ops wit_p w0 wit2 = true /\ class_of (ix (run0 wit_p wit2)) = 2 /\
+  wf_ops wit_p w0 wit2 = true /\ class_of (ix (run0 wit_p wit2)) = 2 /\ clean wit_p w0 wit2 = true /\
   a_get 2 (tbl (run0 wit_p wit2)) = Some [3;4] /\
-  search wit_p (getv_of (tbl (run0 wit_p wit2))) (ix (run0 wit_p wit2)) [3;4] 2 4 = SOk [(0, Inf)] /\
+  search wit_p (getv_of (tbl (run0 wit_p wit2))) (ix (run0 wit_p wit2)) [3;4] 2 4 = SOk [] /\
   snd (step wit_p (run0 wit_p wit2) (Ins 3 [1;1] 0 false)) = OIns false.
+Proof. vm_compute. repeat split. Qed.
+
+(* class 1 without any failed insert: the deleted node is a dead end of the traversal, so a live vector
+   behind it is not found although the whole index (3 nodes) fits into the search width *)
+Definition wit_p1 : params := Pm 2 2 1.
+Definition wit4 : list op := [Ins 1 [2;0] 0 false; Ins 2 [4;0] 0 false; Ins 3 [6;0] 0 false; Del 2].
+Lemma small_index_complete_refuted_l :
+  wf_ops wit_p1 w0 wit4 = true /\ class_of (ix (run0 wit_p1 wit4)) = 1 /\ clean wit_p1 w0 wit4 = true /\
+  length (nodes (ix (run0 wit_p1 wit4))) = 3%nat /\
+  a_get 3 (tbl (run0 wit_p1 wit4)) = Some [6;0] /\
+  search wit_p1 (getv_of (tbl (run0 wit_p1 wit4))) (ix (run0 wit_p1 wit4)) [0;0] 100 64 = SOk [(1, Fin 4)].
 Proof. vm_compute. repeat split. Qed.
